@@ -117,7 +117,7 @@ def check_property(pid, tier, seed, jobs=None):
     mod = property_module(pid)
     run = Run(pid, tier, seed)
     ledger = load_ledger()
-    cfg = {"timeout_ms": 8000 if tier == "quick" else 60000, "tier": tier, "seed": seed, "budget_s": 420 if tier == "quick" else 3600}
+    cfg = {"timeout_ms": 8000 if tier == "quick" else 60000, "tier": tier, "seed": seed, "budget_s": 420 if tier == "quick" else 1200}
     contracts = [c for c in contract_mod.BY_PROPERTY.get(pid, []) if not c.model_only]
     lemmas = contract_mod.LEMMAS.get(pid, [])
     vjobs = [(c.key, vl, cfg) for c in contracts for vl, _ in (c.variants or [(None, None)])]
@@ -377,17 +377,31 @@ def do_replay(pid, path):
 
 
 def do_baseline(pids):
+    """Every property in its OWN interpreter (contract modules that enumerate the class graph register only for their own property)."""
+    import subprocess
+    import tempfile
     ledger = load_ledger()
     for pid in pids:
-        code, run = check_property(pid, "quick", 0)
+        with tempfile.NamedTemporaryFile("r", suffix=".json") as fh:
+            r = subprocess.run([sys.executable, "-m", "pyvc.cli", "ledger-part", pid, fh.name], cwd=ROOT)
+            if r.returncode not in (0, 1):
+                print(f"ledger: {pid} failed with status {r.returncode}; its entries are left unchanged")
+                continue
+            part = json.load(open(fh.name))
         for k in [k for k in ledger if k.startswith(pid + "/")]:
             del ledger[k]
-        for oid, o in run.obligations.items():
-            ledger[oid] = {"status": o["status"], "sha": o.get("sha")}
+        ledger.update(part)
     os.makedirs(os.path.dirname(LEDGER), exist_ok=True)
     with open(LEDGER, "w") as fh:
         json.dump(dict(sorted(ledger.items())), fh, indent=0)
     print(f"ledger written: {len(ledger)} obligations")
+
+
+def do_ledger_part(pid, out):
+    code, run = check_property(pid, "quick", 0)
+    with open(out, "w") as fh:
+        json.dump({oid: {"status": o["status"], "sha": o.get("sha")} for oid, o in run.obligations.items()}, fh)
+    return code
 
 
 def main(argv=None):
@@ -400,8 +414,10 @@ def main(argv=None):
     a = ap.parse_args(argv)
     seed = int(os.environ.get("VERIF_SEED", "0") or 0)
     try:
+        if a.what == "ledger-part":
+            return do_ledger_part(a.rest[0], a.rest[1])
         if a.what == "baseline":
-            pids = a.rest or sorted({os.path.basename(p)[:3] for p in glob.glob(os.path.join(ROOT, "contracts", "C[0-9][0-9]_*.py"))})
+            pids = a.rest or sorted({os.path.basename(p)[:3] for p in glob.glob(os.path.join(ROOT, "contracts", "C[0-9][0-9]_*.py"))} - {"C00"})
             do_baseline(pids)
             return 0
         if a.replay:
